@@ -43,8 +43,22 @@ def derived_keys(r, a, op, b):
     return {(a, "/", b): r, (r, "*", b): a, (b, "*", r): a, (a, "/", r): b}
 
 
+# in-place and remainder forms: nothing of the kind is generated on the pinned tree and the statement does not ask
+# for them; it does forbid the dimensionally meaningless ones.  `a op= b` is meaningful only where `a op b` is
+# admissible AND gives a's own type; `%` only between values of one type or by a number.
+EXTRA_OPS = ["+=", "-=", "*=", "/=", "%", "%="]
+
+
+def extra_expect(adm, ta, op, tb):
+    if op in ("%", "%="):
+        return "either" if (tb == ta or tb == AMT) else "reject"
+    return "either" if adm.get((ta, op[0], tb)) == ta else "reject"
+
+
 def program_line(n, ta, tb, tres, op, paths, expect="accept"):
-    if expect == "reject":
+    if op.endswith("=") and op not in ("==",):
+        return "pub fn p%d(mut a: %s, b: %s) { a %s b; }" % (n, paths[ta], paths[tb], op)
+    if expect in ("reject", "either"):
         # no type ascription: the program must be rejected because no such operator exists, whatever its result
         return "pub fn p%d(a: %s, b: %s) { let _r = a %s b; }" % (n, paths[ta], paths[tb], op)
     return "pub fn p%d(a: %s, b: %s) { let _r: %s = a %s b; }" % (n, paths[ta], paths[tb], paths.get(tres, tres), op)
@@ -60,6 +74,9 @@ def build_programs(types, adm, paths, forced_reject=()):
                 res = None
             progs.append({"lhs": ta, "op": op, "rhs": tb, "expect": "accept" if res else "reject",
                           "result": res or ta})
+        for op in EXTRA_OPS:
+            exp = "reject" if (ta, tb) in forced_reject else extra_expect(adm, ta, op, tb)
+            progs.append({"lhs": ta, "op": op, "rhs": tb, "expect": exp, "result": ta})
     return progs
 
 
@@ -102,6 +119,10 @@ def judge_batch(name, header, progs, paths, backend, tier, stats, violations, fo
         errs = by_line.get(p["line"], [])
         stats["programs"] += 1
         got = "reject" if errs else "accept"
+        if p["expect"] == "either":
+            # meaningful but not required (in-place forms, remainders): whatever the implementation does is fine
+            stats["not_required"] = stats.get("not_required", 0) + 1
+            continue
         if p["expect"] == "accept":
             stats["expected_accept"] += 1
         else:
@@ -112,7 +133,7 @@ def judge_batch(name, header, progs, paths, backend, tier, stats, violations, fo
         elif got == "reject":
             codes = {e["code"] for e in errs}
             stats["codes"].update(codes)
-            if not codes & {"E0277", "E0369", "E0308"}:
+            if not codes & {"E0277", "E0369", "E0308", "E0368"}:
                 violations.append(mk_violation("C06/unexpected-error-kind", name, backend, tier, header, p, got, errs))
     return src
 
@@ -269,7 +290,7 @@ def run(prop, tier, seed, t0):
             for m in [t["name"] for t in main]:
                 for a in ["astro." + t["name"] for t in astro]:
                     for (x, y) in ((m, a), (a, m)):
-                        for op in OPS:
+                        for op in OPS + EXTRA_OPS:
                             cprogs.append({"lhs": x, "op": op, "rhs": y, "expect": "reject", "result": x})
             judge_batch("cross-crate", [], cprogs, cpaths, backend, tier, st, violations)
             all_progs += [("astro", [], aprogs), ("cross-crate", [], cprogs)]
